@@ -143,7 +143,8 @@ func vPath(p string) string {
 	if vSymbolic() {
 		return p
 	}
-	return filepath.Join(vRootDir(), strings.TrimPrefix(p, "/vfs"))
+	// no cleaning: a path is handed on exactly as the harness spells it ("/./", "//", "/x/../")
+	return vRootDir() + strings.TrimPrefix(p, "/vfs")
 }
 
 func vFile(name string, content []byte) {
